@@ -1,11 +1,16 @@
 import Zed.Model.VngSexp
 import Zed.Model.VecProject
+import Zed.Model.VecLoad
 /-!
   Driver glue for C03.
   `(C03 enc (types t…) (seq (k v)…))`   → model `encTop` as a `top` s-expression
   `(C03 dec <top>)`                      → model `readRows` of a column tree (the dump of a real
                                            VNG object or a model encoding): `((type value)…)` | `error`
   `(C03 wf (types t…) (seq (k v)…))`    → `1` when every value conforms to its type, else `0`
+  `(C03 vec (paths (hex…)…) <top>)`    → model vector path (loader + projection + materializer) over a
+                                           column tree: `((type value)…)` | `fail` (error or panic)
+  `(C03 projcrash (paths …) <top>)`    → `1` when the model predicts the nil-vector panic of a record
+                                           nested below a container that was loaded only partially
   `(C03 restrict (paths (hex…)…) (types t…) (seq (k v)…))` → the specified projection of every value
 -/
 namespace Zed.Drv.C03
@@ -37,6 +42,18 @@ def handle : List Sexp → String
     match parseInput ts xs with
     | none => "bad-op"
     | some vs => if vs.all fun p => conforms p.1 p.2 then "1" else "0"
+  | [.atom "vec", .list (.atom "paths" :: ps), top] =>
+    match ps.mapM pathOf, topOfSexp top with
+    | some paths, some t =>
+      match readVec paths t with
+      | none => "fail"
+      | some rows => toString (rowsSexp rows)
+    | _, _ => "bad-op"
+  | [.atom "projcrash", .list (.atom "paths" :: ps), top] =>
+    match ps.mapM pathOf, topOfSexp top with
+    | some paths, some (.single c) => if projCrashes (mkProj paths) c then "1" else "0"
+    | some paths, some (.dynamic _ cols _) => if cols.any (projCrashes (mkProj paths)) then "1" else "0"
+    | _, _ => "bad-op"
   | [.atom "restrict", .list (.atom "paths" :: ps), ts, xs] =>
     match ps.mapM pathOf, parseInput ts xs with
     | some paths, some vs => toString (rowsSexp (vs.map (restrict paths)))
